@@ -162,6 +162,16 @@ def allResolve (scopes : List Scope) (e : Node) : SRes Unit :=
     | some (q, cn) => (resolveCol scopes q cn).map (fun _ => ())
     | none => .ok ()) ()
 
+/-- a column alias list `AS t(a, b)` / `WITH t(a, b) AS` renames the first columns of the relation -/
+def applyColNames (names : List String) (cols : List ColInfo) : List ColInfo :=
+  (cols.zipIdx).map (fun (ci, i) => match names[i]? with
+    | some n => { ci with name := n }
+    | none => ci)
+
+def aliasColNames (it : Node) : List String :=
+  let a := it.get "Alias"
+  if a.isNull then [] else (a.get "Colnames").stringItems
+
 /-- the analysis of one query level; `fuel` bounds the nesting depth -/
 def analyzeLevel (c : Cat) : Nat → List (String × List ColInfo) → List Scope → Node → SRes Sem
   | 0, _, _, _ => .error (.unsupported "fuel")
@@ -173,7 +183,8 @@ def analyzeLevel (c : Cat) : Nat → List (String × List ColInfo) → List Scop
         if !item.isKind "CommonTableExpr" then pure st else
         let s ← analyzeLevel c fuel st.1 [] (item.get "Ctequery")
         let nm := (item.get "Ctename").strVal
-        pure (st.1 ++ [(nm, s.shape.map (fun ci => { ci with origin := none }))], st.2 ++ s.pairs)) (ctes, []))
+        let named := applyColNames ((item.get "Aliascolnames").stringItems) s.shape
+        pure (st.1 ++ [(nm, named.map (fun ci => { ci with origin := none }))], st.2 ++ s.pairs)) (ctes, []))
     -- set operations: the left arm's shape
     if stmt.isKind "SelectStmt" && !(stmt.get "Larg").isNull && (stmt.get "TargetList").items.isEmpty then do
       let l ← analyzeLevel c fuel ctes outer (stmt.get "Larg")
@@ -191,13 +202,13 @@ def analyzeLevel (c : Cat) : Nat → List (String × List ColInfo) → List Scop
           let qual := (aliasOf it).getD tn.name
           if tn.schema == "" then
             match (ctes.filter (·.1 == tn.name)).getLast? with
-            | some (_, cols) => .ok ([{ qual := qual, cols := cols }], [])
-            | none => (tableRel c tn.schema tn.name qual).map (fun r => ([r], []))
-          else (tableRel c tn.schema tn.name qual).map (fun r => ([r], []))
+            | some (_, cols) => .ok ([{ qual := qual, cols := applyColNames (aliasColNames it) cols }], [])
+            | none => (tableRel c tn.schema tn.name qual).map (fun r => ([{ r with cols := applyColNames (aliasColNames it) r.cols }], []))
+          else (tableRel c tn.schema tn.name qual).map (fun r => ([{ r with cols := applyColNames (aliasColNames it) r.cols }], []))
         | "RangeSubselect" => do
           let s ← analyzeLevel c fuel ctes [] (it.get "Subquery")
           match aliasOf it with
-          | some a => pure ([{ qual := a, cols := s.shape.map (fun ci => { ci with origin := ci.origin }) }], s.pairs)
+          | some a => pure ([{ qual := a, cols := applyColNames (aliasColNames it) s.shape }], s.pairs)
           | none => .error (.unsupported "subquery in FROM without alias")
         | "JoinExpr" => do
           if !(it.get "UsingClause").isNull && !(it.get "UsingClause").items.isEmpty then .error (.unsupported "JOIN USING") else
@@ -248,7 +259,14 @@ def analyzeLevel (c : Cat) : Nat → List (String × List ColInfo) → List Scop
                 | _ => .error (.columnAmbiguous cn) } : Pairing))))
         -- a target column that does not exist and takes no placeholder is outside what C10 speaks about
         let missing := targets.filter (fun t => !cols.any (·.name == t))
-        pure (ps, !missing.isEmpty)
+        -- ON CONFLICT … DO UPDATE SET col = $n: the assigned column of the target table
+        let oc := stmt.get "OnConflictClause"
+        let ocPairs : List Pairing := if oc.isNull then [] else
+          (oc.get "TargetList").items.filterMap (fun rt => (paramOf (rt.get "Val")).map (fun n =>
+            ({ number := n.1, loc := n.2, col := match cols.filter (·.name == (rt.get "Name").strVal) with
+                | [ci] => .ok ci
+                | _ => .error (.columnMissing (rt.get "Name").strVal) } : Pairing)))
+        pure (ps ++ ocPairs, !missing.isEmpty)
       | "UpdateStmt" => do
         let cols ← tableCols
         let sets := (stmt.get "TargetList").items
@@ -287,8 +305,18 @@ def analyzeLevel (c : Cat) : Nat → List (String × List ColInfo) → List Scop
         -- every column mentioned inside a result expression must resolve (sub-selects aside)
         allResolve (retScope :: outer) v
         pure (acc ++ [{ name := alias.getD dn, named := alias.isSome || isCol }])) []
+    -- sub-selects inside result expressions (scalar sub-queries) are query levels of their own
+    let targetSubs := targets.items.flatMap (fun rt => if rt.isKind "ResTarget" then (rt.get "Val").search (·.isKind "SubLink") else [])
+    let targetSubPairs ← targetSubs.foldlM (fun (acc : List Pairing) sl => do
+      let s ← analyzeLevel c fuel ctes (retScope :: outer) (sl.get "Subselect")
+      pure (acc ++ s.pairs)) []
+    -- UPDATE SET values may hold sub-selects too
+    let setSubs := if stmt.isKind "UpdateStmt" then (stmt.get "TargetList").items.flatMap (fun rt => (rt.get "Val").search (·.isKind "SubLink")) else []
+    let setSubPairs ← setSubs.foldlM (fun (acc : List Pairing) sl => do
+      let s ← analyzeLevel c fuel ctes scopes (sl.get "Subselect")
+      pure (acc ++ s.pairs)) []
     let loose := dmlLoose || condNodes.any (fun e => match allResolve scopes e with | .ok _ => false | .error _ => true)
-    pure { shape := shape, pairs := ctePairs ++ fromPairs ++ wherePairs ++ subPairs ++ dmlPairs, loose := loose }
+    pure { shape := shape, pairs := ctePairs ++ fromPairs ++ wherePairs ++ subPairs ++ dmlPairs ++ targetSubPairs ++ setSubPairs, loose := loose }
 
 def analyzeStmt (c : Cat) (raw : Node) : SRes Sem :=
   let stmt := raw.get "Stmt"
